@@ -140,6 +140,7 @@ def run(facts, rep, tier):
     rep.notes.append({"discharge_classes": per_rule})
     nonempty(F, rep)
     clamp(F, rep)
+    spansrc(F, rep)
 
 
 # ---------------------------------------------------------------------------------------------------------------
@@ -425,3 +426,40 @@ def clamp(F, rep):
                             "%s no longer clamps its offset with min(text.len()) before use: a span past the end of "
                             "the text makes rendering panic or report a position outside the document" % short,
                             file=f.file, line=f.line, fn=name))
+
+
+TEXT_MEASURES = ("len", "chars", "count", "len_utf8", "char_indices", "width", "find", "rfind", "position", "bytes")
+
+
+def spansrc(F, rep):
+    """SPANSRC - the parser never computes a source offset: every Span it builds takes its ends from token spans
+    (or from spans built from them). The token payloads it sees are decoded text (escapes and doubled braces
+    already collapsed), so an offset derived from the length of a payload is not a source position - it can fall
+    outside the construct or inside a multi-byte character. Decides where the offsets come from, not their values."""
+    from engines import backward_slice, callee_generic, callee_name, op_place
+    n = 0
+    for p in sorted(F.fns):
+        if not p.startswith("incan_syntax::parser") or "::tests::" in p:
+            continue
+        f = F.fns[p]
+        per = 0
+        for bi, t in f.calls():
+            cn = callee_name(t) or ""
+            if not cn.endswith("ast::Span::new"):
+                continue
+            n += 1
+            per += 1
+            locs = [op_place(o)["l"] for o in t["args"] if op_place(o) is not None]
+            _, calls, _ = backward_slice(f, locs)
+            meas = sorted({(callee_generic(c) or callee_name(c) or "").split("::")[-1].split("<")[0]
+                           for _, c in calls} & set(TEXT_MEASURES))
+            fn = p.split("parser::")[-1]
+            inst = "%s#%d" % (fn, per)
+            rep.oblige("SPANSRC", inst, not meas)
+            if meas:
+                rep.add(Finding("SPANSRC", "SPANSRC|%s|%s" % (fn, "+".join(meas)),
+                                "%s builds a span from a measured text length (%s): token payloads are decoded text, "
+                                "so the offset is not a source position and the diagnostic span can start inside a "
+                                "character or outside the construct" % (fn, ", ".join(meas)),
+                                file=f.file, line=t.get("ln"), fn=p))
+    rep.floor("SPANSRC", "Span::new calls in the parser", n, 40)
